@@ -57,12 +57,26 @@ Definition axis_dense (a : axis) (f : h5file) : matrix :=
 Definition orient (a : axis) (nobs_ : nat) (m : matrix) : matrix :=
   match a with Obs => m | Samp => transpose nobs_ m end.
 
+(* ------------------------------------------------------------------ metadata normalisation *)
+(* Table._cast_metadata (table.py:681-690, since 16e406b1 also at the end of filter, 2418-2419):
+   metadata none of whose entries holds anything (None or an empty mapping) becomes None.
+   An entry is an opaque tree; the two empty ones are the harness' encodings of None and {}
+   (tables.md_tree: L [I 0] and L [I 6; L []]). *)
+Definition md_empty (x : Tree) : bool := tree_eqb x (L [I 0%Z]) || tree_eqb x (L [I 6%Z; L []]).
+Definition cast_md (md : option (list Tree)) : option (list Tree) :=
+  match md with
+  | Some l => if forallb md_empty l then None else Some l
+  | None => None
+  end.
+Definition cast_t (t : table) : table :=
+  mkT (oids t) (sids t) (mat t) (cast_md (omd t)) (cast_md (smd t)) (ttype t).
+
 (* ------------------------------------------------------------------ reading everything *)
 (* Table.from_hdf5(h): axis defaults to 'sample', ids is None (table.py:4287-4294, 4356-4373) *)
 Definition from_hdf5_all (f : h5file) : table :=
-  mkT (file_ids Obs f) (file_ids Samp f)
-      (orient Samp (length (file_ids Obs f)) (axis_dense Samp f))
-      (ax_md (f_obs f)) (ax_md (f_samp f)) (f_type f).
+  cast_t (mkT (file_ids Obs f) (file_ids Samp f)
+              (orient Samp (length (file_ids Obs f)) (axis_dense Samp f))
+              (ax_md (f_obs f)) (ax_md (f_samp f)) (f_type f)).
 
 (* ------------------------------------------------------------------ content-level reference *)
 (* keep the positions of axis a where the mask is true: ids, vectors, metadata *)
@@ -74,15 +88,18 @@ Definition sel (a : axis) (mask : list bool) (t : table) : table :=
                 (omd t) (option_map (select mask) (smd t)) (ttype t)
   end.
 
-(* keep the ids of the set, original order *)
+(* Table.filter with the verdicts given as a mask: selection, then _cast_metadata *)
+Definition flt (a : axis) (mask : list bool) (t : table) : table := cast_t (sel a mask t).
+
+(* keep the ids of the set, original order (Table.filter(ids, axis)) *)
 Definition id_mask (ids_ : list Z) (l : list Z) : list bool := map (fun i => zmem i ids_) l.
 Definition filter_ids (ids_ : list Z) (a : axis) (t : table) : table :=
-  sel a (id_mask ids_ (ids a t)) t.
+  flt a (id_mask ids_ (ids a t)) t.
 
 (* drop the vectors of axis a that hold no non-zero value *)
 Definition nonzero_mask (a : axis) (t : table) : list bool :=
   map (fun k => negb (all_zero (vec a t k))) (seq 0 (length (ids a t))).
-Definition drop_empty (a : axis) (t : table) : table := sel a (nonzero_mask a t) t.
+Definition drop_empty (a : axis) (t : table) : table := flt a (nonzero_mask a t) t.
 (* ... on the axis that was NOT subset *)
 Definition drop_empty_other (a : axis) (t : table) : table := drop_empty (other a) t.
 
@@ -159,7 +176,8 @@ Definition from_hdf5_subset (ids_ : list Z) (a : axis) (f : h5file) : result tab
     let indices := gather ranges (ax_indices A) in
     let m := dense_of_cs (length keep) (length (ax_ids O)) indptr indices data in
     let nobs_ := match a with Obs => length kept | Samp => length (ax_ids O) end in
-    let t := put_axis a kept (ax_ids O) (orient a nobs_ m) md_a md_o (f_type f) in
+    (* the constructor normalises the metadata it is given *)
+    let t := cast_t (put_axis a kept (ax_ids O) (orient a nobs_ m) md_a md_o (f_type f)) in
     (* 4375-4382: filter(any_value) on the OTHER axis *)
     ROk (drop_empty (other a) t)
   end.
@@ -190,7 +208,7 @@ Definition from_hdf5_subset_nomd (ids_ : list Z) (a : axis) (f : h5file) : resul
 (* Table.filter with a predicate over (values, id, metadata), in place (parse.py:444-453):
    the predicate is evaluated on every vector of the axis, the accepted ones are kept *)
 Definition filter_by (p : list Z -> Z -> bool) (a : axis) (t : table) : table :=
-  sel a (map (fun k => p (vec a t k) (nth k (ids a t) 0%Z)) (seq 0 (length (ids a t)))) t.
+  flt a (map (fun k => p (vec a t k) (nth k (ids a t) 0%Z)) (seq 0 (length (ids a t)))) t.
 Definition subset_ids_p (ids_ : list Z) (_ : list Z) (id_ : Z) : bool := zmem id_ ids_.
 Definition gt_zero_p (vals : list Z) (_ : Z) : bool := negb (all_zero vals).
 (* t is the fully loaded table; unknown ids are NOT refused on this path *)
